@@ -108,6 +108,7 @@ type World struct {
 	OnOut func(rc *RConn)
 
 	hookHits [16]atomic.Int64
+	monIDs   atomic.Int64
 	Trans    []TransRec
 }
 
@@ -451,9 +452,7 @@ func (ps PeerSpec) options() []corebgp.PeerOption {
 
 // AddPeer adds a peer with a fresh monitor plugin.
 func (w *World) AddPeer(ps PeerSpec) (*PeerMon, error) {
-	w.mu.Lock()
-	id := uint32(len(w.allMons) + 1)
-	w.mu.Unlock()
+	id := uint32(w.monIDs.Add(1))
 	m := &PeerMon{W: w, Addr: ps.Addr, ID: id, Cfg: ps.Cfg}
 	var pl corebgp.Plugin = m
 	if ps.Plugin != nil {
